@@ -25,7 +25,12 @@ import pandas as pd
 from .. import proto
 from ..core import Check, Problem, register
 
-TOL = 1e-12
+# Measured on the clean tree (300 generated cases, seeds 0..1, every comparison of `judge`): max |fairlearn - exact
+# replicate-and-count Fraction| = 4.5e-16; every metamorphic relation (W vs R, S3/S4 vs W, N vs O vs Nn, frames, named
+# metrics, the two-parameter frame) was BIT-EQUAL (max deviation 0: all sums are exact in binary64 on the generated dyadic
+# inputs and equal rationals round to the same double).  Value tolerance = 90 x the measured maximum; relations get one ulp.
+TOL = 4e-14
+REL_ULP = 2.220446049250313e-16
 BASE = ("tpr", "fnr", "fpr", "tnr", "sel", "mp")
 NAMED = ("dpd", "dpr", "eoppd", "eoppr", "eod", "eor")
 VARIANTS = ("W", "R", "S3", "S4", "N", "Nn", "O")
@@ -59,7 +64,7 @@ def same(a, b):
     if a[0] != b[0]:
         return False
     if a[0] == "s":
-        return abs(a[1] - b[1]) <= TOL
+        return abs(a[1] - b[1]) <= REL_ULP * max(1.0, abs(a[1]))
     return a[1:] == b[1:]
 
 
@@ -250,7 +255,12 @@ class CHECK(Check):
                   "C14.src_*_eq_model. Full frame model: any metric that is weight-multiplicative on slices gives the same "
                   "by_group (index incl. re-indexed empty combinations, cells) and overall on weighted and replicated rows, any "
                   "number of features and per-sample parameters (metricframe_weight_is_multiplicity); instances for the pool's "
-                  "weighted means and the two-parameter metric sum(a*ids).")
+                  "weighted means, the two-parameter metric sum(a*ids) and (review) the four confusion-matrix rates "
+                  "(metricframe_rates_weight_is_multiplicity); scale invariance in the full frame model with the IEEE quotient "
+                  "(metricframe_pool_scale_invariant); the named-metric bases, worst-case builtins and ratio_sub_one of the "
+                  "hand-written model are proved equal to the lifted text (named_bases_are_lifted, eodds_worst_is_lifted, "
+                  "subOne_is_lifted); the dict-frame metrics are also evaluated by the full frame model (frame.eval) on weighted "
+                  "and replicated rows against the oracle.")
     design_ref = "DESIGN.md section 4, C11"
     quick_cases = 200
     thorough_cases = 6000
@@ -263,10 +273,13 @@ class CHECK(Check):
             "docstring; six base metrics on every variant, a dict MetricFrame (3 of 6 metrics) on W/R, a callable MetricFrame on "
             "W/S3/S4/N/O, a dict MetricFrame whose metrics get different weight vectors, 2 named fairness metrics on W/R and 1 "
             "on S3/S4/N/O, and a callable MetricFrame with TWO sample parameters (a = k, ids = 8*score+1; metric sum(a*ids)) on "
-            "W/R; distinct = distinct (data, weights, layout, plan); non-trivial = at least one weight > 1")
+            "W/R; distinct = distinct (data, weights, layout, plan); non-trivial = at least one weight > 1. Not generated (stated "
+            "restrictions): scalings other than x3 and /4 (exact in binary64, so the relations are bit-comparable), label "
+            "encodings other than {0,1}/{-1,1}, more than one sensitive column for the named metrics, zero weights")
     explanation = ("theorems over the Lean models Weights+BaseMetrics (all inputs); correspondence: real functions on the weight "
                    "variants vs each other (property relations), vs an exact replicate-and-count Fraction oracle and vs the "
-                   "compiled driver (values within 1e-12, scalar-ness, result types, group index)")
+                   "compiled driver (values within 4e-14 — measured max 4.5e-16 —, relations between variants within one ulp — measured 0 —, "
+                   "scalar-ness, result types, group index)")
     trusted = ("sklearn.metrics.confusion_matrix(normalize='true', sample_weight=...) incl. nan_to_num of empty rows",
                "pandas groupby(...).apply slicing the weight column together with the rows (checked by correspondence)",
                "sensitive/control feature values are mapped order-preservingly to integers before entering the model")
@@ -585,6 +598,47 @@ class CHECK(Check):
             out["named"]["W"][case["named1"]] = named(case["named1"], "W")
         return out
 
+    # the dict-frame metrics as names of the metric pool of the FULL MetricFrame model (Model/Frame.lean + MetricPool.lean)
+    POOL = {"tpr": "tpr", "fnr": "fnr", "fpr": "fpr", "tnr": "tnr", "sel": "selrate", "mp": "meanpred"}
+
+    def _full_lines(self, case):
+        """The dict-frame metrics evaluated by the FULL MetricFrame model (op `frame.eval` = `Frame.byGroup` / `Frame.overall`
+        over `MetricPool.eval`, control and sensitive columns together, empty combinations re-indexed to NaN) on the weighted
+        and on the physically replicated rows: exactly the two sides of C11.metricframe_rates_weight_is_multiplicity (rates)
+        and C11.metricframe_two_params_weight_is_multiplicity (selection rate, mean prediction)."""
+        from . import mfcommon as mc
+        out = []
+        has_cf = case["cf"] is not None
+        for v in ("W", "R"):
+            mult = case["k"] if v == "R" else None
+            ys, ps = rep(case["yt"], mult), rep(case["yp"], mult)
+            p0 = list(case["k"]) if v == "W" else [1] * sum(case["k"])
+            cols = []
+            if has_cf:
+                cols.append(rep([CLAB[x] for x in case["cf"]], mult))
+            cols.append(rep([mc.enc_level(GLAB[case["gtype"]][x]) for x in case["g"]], mult))
+            for m in case["dict_metrics"]:
+                out.append((("full", v, m), f"frame.eval {self.POOL[m]} {1 if has_cf else 0} {proto.lst(ys)} {proto.lst(ps)} "
+                            f"{proto.lst(p0)} {proto.lst([0] * len(ys))} " + " ".join(proto.strs(c) for c in cols)))
+        return out
+
+    def _full_oracle(self, case, m):
+        """replicate-and-count value of metric m per (control, group) combination of the product index, "nan" where empty"""
+        from . import mfcommon as mc
+        n = len(case["yt"])
+        has_cf = case["cf"] is not None
+        gl = [mc.enc_level(GLAB[case["gtype"]][x]) for x in case["g"]]
+        cl = [CLAB[x] for x in case["cf"]] if has_cf else None
+        rows = self._rows(case, "W", None, "yp")
+        by, ov = {}, {}
+        for c in (sorted(set(cl)) if has_cf else [None]):
+            idx = [i for i in range(n) if not has_cf or cl[i] == c]
+            ov[(c,) if has_cf else ()] = o_metric(m, [rows[i] for i in idx], 1)
+            for g in sorted(set(gl)):
+                sel = [i for i in idx if gl[i] == g]
+                by[(c, g) if has_cf else (g,)] = o_metric(m, [rows[i] for i in sel], 1) if sel else "nan"
+        return by, ov
+
     # ---------------------------------------------------------------- model lines
     def _slices(self, case):
         """cf level token -> row indices"""
@@ -638,6 +692,7 @@ class CHECK(Check):
                 mode, t = toks(idx_all, yp_as_pred, v)
                 plan.append((("named", v, nm), f"w.named {mode} {nm} {case['method']} {case['agg']} {t}"))
         plan.extend(self._two_lines(case))
+        plan.extend(self._full_lines(case))
         return plan
 
     def lines(self, case, impl_out):
@@ -795,7 +850,7 @@ class CHECK(Check):
                                          "C11.by_group_keys"))
                         continue
                     for k_, val in got.items():
-                        if not mc.same(val, want[k_]):
+                        if not mc.same(val, want[k_], TOL):
                             P.append(Problem("property", f"two-parameter frame [{v}] {label}{list(k_)} = {val}, replicate-and-count "
                                              f"{want[k_]}", "C11.metricframe_two_params"))
                 if mo is not None:
@@ -813,10 +868,26 @@ class CHECK(Check):
                 for label in ("by_group", "overall"):
                     a_, b_ = tabs["W"][label], tabs["R"][label]
                     if [k_ for k_, _ in a_] != [k_ for k_, _ in b_] or any(
-                            not (x == y or (not isinstance(x, str) and not isinstance(y, str) and abs(x - y) <= 1e-9 * max(1, abs(x))))
+                            not (x == y or (not isinstance(x, str) and not isinstance(y, str) and abs(x - y) <= REL_ULP * max(1, abs(x))))
                             for (_, x), (_, y) in zip(a_, b_)):
                         P.append(Problem("property", f"two-parameter frame {label}: weighted {a_} vs replicated {b_}",
                                          "C11.metricframe_two_params"))
+        # ---------- the dict-frame metrics in the FULL MetricFrame model (the functions of the metricframe_* theorems) ------
+        if mo is not None:
+            for m in case["dict_metrics"]:
+                by_f, ov_f = self._full_oracle(case, m)
+                for v in ("W", "R"):
+                    tok = model.get(("full", v, m))
+                    t = (tok or "").split(" ")
+                    if len(t) != 4:
+                        P.append(Problem("harness", f"model full[{v}] {m}: {tok}"))
+                        continue
+                    mby = dict(zip([tuple(k_) for k_ in mc.parse_keys(t[0])], mc.parse_cells(t[1])))
+                    mov = dict(zip([tuple(k_) for k_ in mc.parse_keys(t[2])], mc.parse_cells(t[3])))
+                    if case["cf"] is None:
+                        mov = {(): x for x in mov.values()}
+                    if mby != by_f or mov != ov_f:
+                        P.append(Problem("harness", f"full-frame model {m}[{v}] {mby} {mov} vs oracle {by_f} {ov_f}"))
         # ---------- named metrics ------------------------------------------------------------------
         N = o["named"]
         gs_all = case["g"]
